@@ -179,6 +179,14 @@ void *app_rep_cb(void *context, UINT32 size, UINT32 esi)
 	return NULL;	/* "let the library allocate" */
 }
 
+/* which sources the library had to decode: a source that enters the closure at an arrival other than its own (or at finish) */
+static UINT32 spec_decoded;
+static void spec_note_arrival(UINT32 received_before, UINT32 esi)
+{
+	UINT32 before = spec_peel(received_before), after = spec_peel(received_before | (1u << esi));
+	spec_decoded |= after & ~before & ~(1u << esi) & ALL_SRC;
+}
+
 static UINT8 sym[NN][LEN];	/* the codeword, by ESI */
 static UINT8 rx[NN][LEN], rx2[NN][LEN];	/* what the application received (second copy: a duplicate arrives in another buffer) */
 
@@ -263,6 +271,7 @@ int main(void)
 		if (esi < K && !((before >> esi) & 1u)) { first_ptr[esi] = buf; submitted_unknown |= 1u << esi; }
 		st = of_decode_with_new_symbol(ses, buf, esi);
 		ENSURES(st == OF_STATUS_OK, "decode.returns_ok");
+		spec_note_arrival(received, esi);
 		received |= 1u << esi;
 		closure = spec_peel(received);
 		REQUIRES(of_get_source_symbols_tab(ses, out) == OF_STATUS_OK);
@@ -285,10 +294,14 @@ int main(void)
 		for (i = 0; i < NN; i++) tab[i] = NULL;
 		for (i = 0; i < NSEQ; i++) { tab[seq[i]] = rx[seq[i]]; }
 		for (i = 0; i < NN; i++) tab0[i] = tab[i];
-		for (i = 0; i < K; i++) if (tab[i] != NULL && !((spec_peel(received) >> i) & 1u)) { first_ptr[i] = tab[i]; submitted_unknown |= 1u << i; }
 		st = of_set_available_symbols(ses, tab);
 		ENSURES(st == OF_STATUS_OK, "set_available.returns_ok");
-		for (i = 0; i < NN; i++) if (tab[i] != NULL) received |= 1u << i;
+		for (i = 0; i < NN; i++)	/* the bulk API submits the table in increasing ESI order */
+			if (tab[i] != NULL) {
+				if (i < K && !((spec_peel(received) >> i) & 1u)) { first_ptr[i] = tab[i]; submitted_unknown |= 1u << i; }
+				spec_note_arrival(received, i);
+				received |= 1u << i;
+			}
 		for (i = 0; i < NN; i++) ENSURES(tab[i] == tab0[i], "frame.application_table_not_written");
 		closure = spec_peel(received);
 		REQUIRES(of_get_source_symbols_tab(ses, out) == OF_STATUS_OK);
@@ -313,6 +326,7 @@ int main(void)
 		REQUIRES(of_get_source_symbols_tab(ses, out) == OF_STATUS_OK);
 		complete = of_is_decoding_complete(ses) ? 1 : 0;
 		for (avail = 0, c = 0; c < K; c++) if (out[c] != NULL) avail |= 1u << c;
+		spec_decoded |= avail & ~avail_before;
 		ENSURES((avail == ALL_SRC) == (determined != 0), "finish.recovers_all_iff_uniquely_determined");
 		if (!determined) ENSURES(!complete && avail == avail_before, "finish.incomplete_otherwise");
 		ENSURES(complete == (avail == ALL_SRC), "complete.iff_all_sources_available");
@@ -333,7 +347,7 @@ int main(void)
 #if OFV_CB != 0
 	ENSURES(cb_src_bad == 0 && cb_rep_bad == 0, "callback.size_and_esi");
 	for (c = 0; c < K; c++) {
-		int decoded = ((avail >> c) & 1u) && !((received >> c) & 1u);
+		int decoded = (int)((spec_decoded >> c) & 1u);
 		ENSURES(cb_src_calls[c] == (decoded ? 1u : 0u), "callback.exactly_once_per_decoded_source_never_for_received");
 		if (decoded && cb_src_calls[c] == 1 && cb_src_buf[c] != NULL)
 			ENSURES(out[c] == cb_src_buf[c], "callback.buffer_is_reported_and_holds_value");
